@@ -10,7 +10,7 @@ META = {
              'the input halves of the repository golden put cases with norm=True. Oracle after every step that returns '
              'normally and is in scope (norm on, pars not False, raw off): ast.dump(include_attributes) of ast.parse(root.src) '
              '== dump of the live tree. A cell is (target type, field, op, code form, source-changed); only cells whose step '
-             'changed the source count as non-trivial.'),
+             'changed the source count as non-trivial. W3 (deterministic, complete in both tiers): every element of 14 multi-line / continuation-line host containers x 19 entry points (single, slice, delete) x irregularly indented multi-line codes (as one element and as a slice) x the three code forms. unpar() is judged on the sub-domain where the parentheses are redundant for CPython (deleting them, keeping one space only between two alphanumeric characters, leaves the parsed structure unchanged).'),
     'budget': {'quick': 45, 'thorough': 900},
     'floors': {'quick': {'insync_checked': 4000, '#cells': 300}, 'thorough': {'insync_checked': 60000, '#cells': 1000}},
     'assumptions': ['CPython 3.12 ast.parse is the reference parser', 'end-of-file convention: text ending in backslash-newline is parsed with one extra newline',
